@@ -425,6 +425,51 @@ class Flow:
         return self.fn.blocks[o[1]]["term"]
 
 
+_RET_MEMO = {}
+
+
+def ret_param_sources(fx, key, depth=0):
+    """parameters (1-based) of a workspace function from which its result derives: through moves, borrows, field reads, pass-through
+    calls, aggregates, the receivers of other calls, and helpers (two levels)"""
+    mk = (id(fx), key)
+    if mk in _RET_MEMO:
+        return _RET_MEMO[mk]
+    _RET_MEMO[mk] = set()
+    f = fx.fns[key]
+    if len(f["blocks"]) > 300:
+        return set()
+    fn = Fn(f)
+    flow = Flow(fn)
+    out = set()
+    seen = set()
+
+    def walk(local, fields, d):
+        if (local, fields) in seen or d > 12:
+            return
+        seen.add((local, fields))
+        for o in flow.origins(local, fields):
+            if o[0] == "arg":
+                out.add(o[1])
+            elif o[0] == "agg":
+                for op in flow.agg_at(o)["ops"]:
+                    if op.get("k") in ("copy", "move"):
+                        walk(op["pl"]["l"], tuple(place_fields(op["pl"])), d + 1)
+            elif o[0] == "call":
+                t = fn.blocks[o[1]]["term"]
+                k2 = t.get("resolved_key") or (t.get("callee_key") if not t.get("callee_trait") else None)
+                srcs = None
+                if k2 in fx.fns and depth < 2 and k2 != key and "{closure" not in k2:
+                    srcs = ret_param_sources(fx, k2, depth + 1)
+                idx = sorted(srcs) if srcs else [1]
+                for pi in idx:
+                    if pi - 1 < len(t["args"]) and t["args"][pi - 1].get("k") in ("copy", "move"):
+                        a = t["args"][pi - 1]
+                        walk(a["pl"]["l"], tuple(place_fields(a["pl"])), d + 1)
+    walk(0, (), 0)
+    _RET_MEMO[mk] = out
+    return out
+
+
 _CTOR_MEMO = {}
 
 
